@@ -575,3 +575,132 @@ Proof.
     apply str_eqb_eq in E. subst r'. exact Hin'. }
   vm_compute. repeat split.
 Qed.
+
+(* ------------------------------------------------------------------------------------- *)
+(* 3. word-free token lists are rewritten alike under en and tr                          *)
+(* ------------------------------------------------------------------------------------- *)
+(* an Active typed token with arbitrary span and text *)
+Definition tinfo (b e : N) (t : token float) (txt : str) : token_info float :=
+  {| ti_start := b; ti_end := e; ti_ty := Some t; ti_text := txt; ti_active := true |}.
+
+(* the rule loop of Tokinizer::tokinize (the only language-keyed stage between the lexer and the
+   printer) on the token infos [infos] of a line, with the rules of [lang]; no session variables *)
+Definition rules_on (bexec : config float -> str -> res (option float)) (ny : Z) (line lang : str)
+           (infos : list (token_info float)) : res (option (@Rules.tstate float)) :=
+  let st := {| ts_infos := infos; ts_ui := [] |} in
+  rule_tokinizer bexec ny (loop_fuel st) line default_config lang [] st.
+
+Definition same_rewrite bexec ny line (infos : list (token_info float)) : Prop :=
+  rules_on bexec ny line L_en infos = rules_on bexec ny line L_tr infos.
+
+(* the patterns that consist of NUMBER / MONEY / PERCENT / DATE / TIME fields and operators only
+   (no keyword, no word group, no month, no duration, no timezone) are the same in both rule tables,
+   in the same order *)
+Definition word_free_element (t : token_info float) : bool :=
+  match ti_ty t with
+  | Some (TOperator _) => true
+  | Some (TField (FNumber _)) | Some (TField (FMoney _)) | Some (TField (FPercent _))
+  | Some (TField (FDate _)) | Some (TField (FTime _)) | Some (TField (FDateTime _)) => true
+  | Some (TField (FTypeGroup ts _)) =>
+    forallb (fun t => mem_str t (map s ["NUMBER"; "MONEY"; "PERCENT"; "DATE"; "TIME"; "DATE_TIME"]%string)) ts
+  | _ => false
+  end.
+Definition word_free_patterns (lang : str) : list (str * list (list (token_info float))) :=
+  filter (fun np => negb (Nat.eqb (length (snd np)) 0))
+         (map (fun r => (rule_name r, filter (forallb word_free_element) (rule_patterns r))) (rules_of lang)).
+
+Lemma word_free_rules_equal :
+  word_free_patterns L_en = word_free_patterns L_tr /\
+  map (fun np => (fst np, map (map tok_code) (snd np))) (word_free_patterns L_en)
+  = [(s "percent_calculator", [[s "PERCENT:percent"; s "NUMBER:number"]; [s "NUMBER:number"; s "PERCENT:percent"]]);
+     (s "small_date", [[s "NUMBER:day"; s "/"; s "NUMBER:month"; s "/"; s "NUMBER:year"]])].
+Proof. split; vm_compute; reflexivity. Qed.
+
+Section Shapes.
+Variable bexec : config float -> str -> res (option float).
+Variable ny : Z.
+Variable line : str.
+Variables b1 e1 b2 e2 b3 e3 b4 e4 b5 e5 b6 e6 : N.
+Variables x1 x2 x3 x4 x5 x6 : str.
+Variables X Y V p : float.
+Variables nt nt' nt'' : numtype.
+Variables d d' t t' : Z.
+Variables tz tz' : tzinfo.
+
+Let NUM1 := tinfo b1 e1 (TNumber X nt) x1.
+Let NUM3 := tinfo b3 e3 (TNumber Y nt') x3.
+Let NUM5 := tinfo b5 e5 (TNumber V nt'') x5.
+Let OP2 (c : string) := tinfo b2 e2 (TOperator (ch c)) x2.
+Let OP4 (c : string) := tinfo b4 e4 (TOperator (ch c)) x4.
+Let MON1 (c : string) := tinfo b1 e1 (TMoney X (s c)) x1.
+Let MON3 (c : string) := tinfo b3 e3 (TMoney Y (s c)) x3.
+Let PCT1 := tinfo b1 e1 (TPercent p) x1.
+Let PCT3 := tinfo b3 e3 (TPercent p) x3.
+Let PCT2 := tinfo b2 e2 (TPercent p) x2.
+Let NUM2 := tinfo b2 e2 (TNumber Y nt') x2.
+Let W2 (w : string) := tinfo b2 e2 (TText (s w)) (s w).
+
+Ltac go := unfold same_rewrite; vm_compute; reflexivity.
+
+(* arithmetic: one, two, three operands with the operators + - * / (any values, number types, spans, texts) *)
+Lemma shapes_arithmetic :
+  same_rewrite bexec ny line [NUM1] /\
+  same_rewrite bexec ny line [NUM1; OP2 "+"; NUM3] /\ same_rewrite bexec ny line [NUM1; OP2 "-"; NUM3] /\
+  same_rewrite bexec ny line [NUM1; OP2 "*"; NUM3] /\ same_rewrite bexec ny line [NUM1; OP2 "/"; NUM3] /\
+  same_rewrite bexec ny line [NUM1; NUM2] /\
+  same_rewrite bexec ny line [NUM1; OP2 "+"; NUM3; OP4 "*"; NUM5] /\
+  same_rewrite bexec ny line [NUM1; OP2 "*"; NUM3; OP4 "-"; NUM5] /\
+  same_rewrite bexec ny line [NUM1; OP2 "-"; NUM3; OP4 "/"; NUM5] /\
+  same_rewrite bexec ny line [tinfo b1 e1 (TOperator (ch "(")) x1; NUM2; tinfo b3 e3 (TOperator (ch "+")) x3;
+                              tinfo b4 e4 (TNumber V nt'') x4; tinfo b5 e5 (TOperator (ch ")")) x5].
+Proof. repeat split; go. Qed.
+
+(* d/m/y: the one date spelling without a month word (the small_date rule fires in both) *)
+Lemma shapes_dmy :
+  same_rewrite bexec ny line [NUM1; OP2 "/"; NUM3; OP4 "/"; NUM5].
+Proof. go. Qed.
+
+(* money (three of the configured currency codes) alone, in sums, scaled, and converted by `money code` *)
+Lemma shapes_money :
+  same_rewrite bexec ny line [MON1 "USD"] /\ same_rewrite bexec ny line [MON1 "TRY"] /\
+  same_rewrite bexec ny line [MON1 "USD"; OP2 "+"; MON3 "USD"] /\
+  same_rewrite bexec ny line [MON1 "USD"; OP2 "-"; MON3 "EUR"] /\
+  same_rewrite bexec ny line [MON1 "EUR"; OP2 "*"; NUM3] /\ same_rewrite bexec ny line [MON1 "TRY"; OP2 "/"; NUM3] /\
+  same_rewrite bexec ny line [MON1 "USD"; W2 "try"] /\ same_rewrite bexec ny line [MON1 "EUR"; W2 "usd"] /\
+  same_rewrite bexec ny line [MON1 "TRY"; W2 "eur"].
+Proof. repeat split; go. Qed.
+
+(* percentages: alone, `X + p%`, `X - p%`, `money +- p%`, `p% X`, `X p%` (percent_calculator) *)
+Lemma shapes_percent :
+  same_rewrite bexec ny line [PCT1] /\
+  same_rewrite bexec ny line [NUM1; OP2 "+"; PCT3] /\ same_rewrite bexec ny line [NUM1; OP2 "-"; PCT3] /\
+  same_rewrite bexec ny line [MON1 "USD"; OP2 "+"; PCT3] /\ same_rewrite bexec ny line [MON1 "EUR"; OP2 "-"; PCT3] /\
+  same_rewrite bexec ny line [PCT1; NUM2] /\ same_rewrite bexec ny line [NUM1; PCT2].
+Proof. repeat split; go. Qed.
+
+(* the phrases whose pattern words are English in both rule tables *)
+Lemma shapes_phrases :
+  same_rewrite bexec ny line [PCT1; W2 "on"; NUM3] /\ same_rewrite bexec ny line [PCT1; W2 "of"; NUM3] /\
+  same_rewrite bexec ny line [PCT1; W2 "off"; NUM3] /\ same_rewrite bexec ny line [NUM1; W2 "on"; PCT3] /\
+  same_rewrite bexec ny line [PCT1; W2 "of"; MON3 "USD"] /\ same_rewrite bexec ny line [MON1 "TRY"; W2 "off"; PCT3] /\
+  same_rewrite bexec ny line [NUM1; W2 "is"; tinfo b3 e3 (TText (s "what")) x3; tinfo b4 e4 (TOperator 37) x4;
+                              tinfo b5 e5 (TText (s "of")) x5; tinfo b6 e6 (TNumber V nt'') x6] /\
+  same_rewrite bexec ny line [NUM1; W2 "is"; PCT3; tinfo b4 e4 (TText (s "of")) x4; tinfo b5 e5 (TText (s "what")) x5].
+Proof. repeat split; go. Qed.
+
+(* times and dates as values (already lexed): alone and in differences *)
+Lemma shapes_time_date :
+  same_rewrite bexec ny line [tinfo b1 e1 (TTime t tz) x1] /\
+  same_rewrite bexec ny line [tinfo b1 e1 (TDate d tz) x1] /\
+  same_rewrite bexec ny line [tinfo b1 e1 (TDate d tz) x1; OP2 "-"; tinfo b3 e3 (TDate d' tz') x3] /\
+  same_rewrite bexec ny line [tinfo b1 e1 (TTime t tz) x1; OP2 "+"; tinfo b3 e3 (TTime t' tz') x3].
+Proof. repeat split; go. Qed.
+
+End Shapes.
+
+(* what is printed for a number, a percentage, money, a time or a quantity does not read the
+   language at all: any configuration, any two tags *)
+Lemma print_word_free {F} {NF : Num F} (cfg : config F) (l l' : str) ny (i : item F) :
+  match i with IDuration _ | IDate _ _ | IDateTime _ _ => False | _ => True end ->
+  format_result cfg l ny (AItem i) = format_result cfg l' ny (AItem i).
+Proof. destruct i; intros []; reflexivity. Qed.
